@@ -85,6 +85,17 @@ def workload(tier, seed, scale=1.0):
             add(x, 2, 'scaled-sq')
             add(x, 3, 'scaled-cb')
             add(x, rnd.choice((4, 5, 7)), 'scaled-n')
+    # roots of the form 2^k + 1 / 3*2^k + 1: x = r^n - 1, r^n, r^n + 1 has few significant bits, converts to f64 without loss
+    # and its float root rounds UP to an integer although x is not a perfect power
+    for k in ((32, 33, 40, 47, 52) if quick else range(31, 54)):
+        for r in ((1 << k) + 1, (3 << k) + 1, (1 << k) - 1):
+            for n in (2, 3):
+                for d in (-1, 0, 1):
+                    add(r ** n + d, n, 'near-perfect-lossless', rnd.choice('UI'))
+    # degrees in the thousands with a root well above 2 (a Newton descent from a power-of-two guess then needs many rounds)
+    for (r, n) in ((4101, 3000), (5000, 1500), (3, 9000), (70000, 2000)) if not quick else ((4101, 3000), (5000, 1500)):
+        add(r ** n, n, 'high-degree', 'U')
+        add(r ** n - 1, n, 'high-degree-1', 'U')
     from ..core import special_values
     for v in special_values():
         for n in (1, 2, 3, 5, 7, 63, 64, 65):
